@@ -11,7 +11,7 @@ TRUSTED = ['spec/RoundTrip.v: kekule_ok (per atom: at most one double bond insid
            'valence rule), has_kekule_structure (exact backtracking search for an alternating assignment), is_perfect_matching / graph_has_pm for the matching routine itself',
            'the known-finding classifier is computed by the model of find_perfect_matching (CPython set order included) on the pruned graph of the failing input']
 
-CARBANION = re.compile(r'\[c(H0)?-')
+CARBANION = re.compile(r'\[\d*c(H0)?-')      # any isotope spelling of a hydrogen-free aromatic carbanion
 
 
 def classify(x):
@@ -219,7 +219,9 @@ def run(rep, tier, seed, b):
             rep.nontriv(x)
         else:
             rep.count('rejected')
-            if kk.get('all_standard') and kk.get('has_kekule') and im['err'] == 'EncoderError':
+            if E.ring_bond_mismatch(x):
+                rep.count('rejected: mismatched ring closure symbols (malformed input, not judged)')
+            elif kk.get('all_standard') and kk.get('has_kekule') and im['err'] == 'EncoderError':
                 rep.oracle_failures.append({'clause': 'for the standard aromatic atom kinds the encoder succeeds whenever an alternating assignment exists',
                                             'input': inp, 'impl': im, 'klass': classify(x)})
     # ---- acceptance does not depend on the spelling
